@@ -69,6 +69,7 @@ class Engine(ExprMixin, CallMixin, StmtMixin):
         self.memo_mismatch = {}
         self.globals_of_current = {}
         self.replayers = {}
+        self.enumerators = []      # property-level bounded refuters (replay only): dict(name, props, scope, run)
         self.refinements = {}
         self.assumptions = collections.defaultdict(list)
         self.bounded_notes = collections.defaultdict(list)
@@ -123,6 +124,11 @@ class Engine(ExprMixin, CallMixin, StmtMixin):
         c.stub_src, c.stub_globals = src, g
         self.refinements[(impl, iface_key)] = (key, list(closure_requires), list(bind.keys()))
         return c
+
+    def enumerator(self, name, props, scope, run):
+        """registers a bounded enumerative refuter: `run(seed, focus)` drives the REAL code on small inputs against
+        an oracle written from the property statement and returns a replay dict. Never counted as proof."""
+        self.enumerators.append({"name": name, "props": list(props), "scope": list(scope), "run": run})
 
     def cls(self, name, **kw):
         d = ClassDecl(name, **kw)
